@@ -15,7 +15,8 @@ the "Type parsers" of `parser.rs` and of the type printer of `format.rs`; lemmas
   d3_dea6b02_only_rule_breaks_roundtrip                     the dea6b02-only printing rule breaks T2 (D3)
   d1_old_print_rule_breaks_roundtrip                        the pre-dea6b02 printing rule breaks T2
   print_idempotent (= PrintIdempotentStatement, FULL), print_idempotent_partial   (T3)
-  alias_statement_layouts, alias_statement_roundtrip (= AliasRoundTripStatement, FULL),
+  alias_statement_layouts, alias_statement_layout_decided,
+  alias_statement_roundtrip (= AliasRoundTripStatement, FULL),
   alias_statement_program, alias_parse_format_parse, alias_format_idempotent
                                                             the alias STATEMENT through format_program
 -/
@@ -458,6 +459,17 @@ theorem alias_statement_layouts (a : Alias) (hw : a.wf = true) :
     fmtAlias a = printAlias a ++ ['\n'] ∨
     ∃ ts, a.ty = .union ts ∧ fmtAlias a = brokenAlias a.name a.params ts ++ ['\n'] :=
   fmtAlias_text a hw
+
+/-- **alias_statement_layout_decided**: which of the two — the engine's `fits` computed: the
+    members of a union alias are put on their own lines exactly when the flat line is longer than 100
+    characters (`chars().count()`); every other alias stays on one line however long it is. -/
+theorem alias_statement_layout_decided (a : Alias) (hw : a.wf = true) :
+    fmtAlias a =
+      (match a.ty with
+       | .union ts =>
+         if (printAlias a).length ≤ 100 then printAlias a else brokenAlias a.name a.params ts
+       | _ => printAlias a) ++ ['\n'] :=
+  fmtAlias_decided a hw
 
 /-- **alias_statement_roundtrip** (FULL = `AliasRoundTripStatement`): for EVERY well-formed alias
     (`Alias.wf`, decidable; every alias the parser returns satisfies it: `typeAlias_wf`), `type_alias`
